@@ -1,6 +1,5 @@
 pub mod bcdd;
 pub mod bdd;
-pub mod dddmp;
 #[cfg(not(feature = "pointer"))]
 pub mod mtbdd_f;
 #[cfg(not(feature = "pointer"))]
